@@ -315,6 +315,34 @@ def eval_close(ctx, ckey, attr, table, script=(), disk=None):
     return events, None, obj
 
 
+def eval_life_cycle(ctx, ckey, attr, disk, script):
+    """One whole invocation of a state store: the real initialisers load `disk`, `script` mutates, close() saves.  Returns (events, error, obj).
+    Unlike eval_close the instance is not assembled by hand, so whatever the initialiser keeps besides the table (a snapshot, a dirty flag) is as in the program."""
+    ci, obj = store_object(ctx, ckey, attr, {})
+    events = []
+    hooks = file_hooks(events, disk)
+    hooks["attr:submit_target"] = lambda recv, target, ids: tok("NEW_" + getattr(target, "name", "?"))
+    hooks["attr:get_job_states"] = lambda recv, ids: {}
+    interp = PureInterp(ctx, hooks=hooks)
+    interp.events = events
+    try:
+        for fname, _ann, _value in ci.fields:
+            for m in ci.methods.values():
+                if any((d or "").endswith(f"{fname}.default") for d in m.decorator_names()):
+                    setattr(obj, fname, interp.call(m, (), {}, self_obj=obj))
+        post = ctx.index.method(ci, "__attrs_post_init__")
+        if post is not None:
+            interp.call(post, (), {}, self_obj=obj)
+        del events[:]
+        for meth, tname in script:
+            args = (target_obj(ctx, name=tname, spec=tok("SPEC_" + tname)),) + (([],) if meth == "submit" else ())
+            interp.call(ctx.index.method(ci, meth), args, {}, self_obj=obj)
+        interp.call(ctx.index.method(ci, "close"), (), {}, self_obj=obj)
+    except (Raised, Unsupported) as exc:
+        return None, f"{exc}", obj
+    return events, None, obj
+
+
 def load_path(ctx, ckey, attr):
     """The path the store loads its table from (first open() of the initialiser)."""
     ci, obj = store_object(ctx, ckey, attr, {})
@@ -1711,7 +1739,7 @@ def _witness_graph(ctx, WITNESS_PROJECT=None, reverse=False):
     return T, graph, hooks
 
 
-def eval_clean_command(ctx, targets=(), all_=False, force=False, decline=False):
+def eval_clean_command(ctx, targets=(), all_=False, force=False, decline=False, size=10):
     fn = ctx.index.func("gwf.plugins.clean:clean")
     T, graph, hooks = _witness_graph(ctx)
     events = []
@@ -1732,7 +1760,7 @@ def eval_clean_command(ctx, targets=(), all_=False, force=False, decline=False):
     store = Obj("spec_hashes")
     hooks.update({
         "click.confirm": h_confirm, "os.remove": h_remove, "os.unlink": h_remove, "attr:unlink": lambda recv, *a, **k: h_remove(str(recv)),
-        "os.path.exists": lambda p: str(p) in WITNESS_EXISTING, "os.path.getsize": lambda p: 10, "os.path.isfile": lambda p: str(p) in WITNESS_EXISTING,
+        "os.path.exists": lambda p: str(p) in WITNESS_EXISTING, "os.path.getsize": lambda p: size, "os.path.isfile": lambda p: str(p) in WITNESS_EXISTING,
         "gwf.core.get_spec_hashes": lambda *a, **k: (events.append(("open-store",)), store)[1],
         "attr:invalidate": lambda recv, t: events.append(("invalidate", t.name)),
         "with_exit": lambda v: events.append(("close-store",)) if v is store else None,
@@ -1763,10 +1791,16 @@ def clean_command_witness(ctx):
         ("gwf clean (prompt accepted)", (), False, False, False, {"/p/a1", "/p/s1"}, {"A", "S"}, True),
         ("gwf clean (prompt declined)", (), False, False, True, set(), set(), True),
         ("gwf clean --all (prompt declined)", (), True, False, True, set(), set(), True),
+        ("gwf clean 'nomatch*' (a pattern that matches no target)", ("nomatch*",), False, False, False, set(), set(), False),
+        ("gwf clean --all --force 'nomatch*'", ("nomatch*",), True, True, False, set(), set(), False),
+        # every output is an empty file (markers made by `touch`, *.done flags): zero bytes is not zero files
+        ("gwf clean --force [all outputs are empty files]", (), False, True, False, {"/p/a1", "/p/s1"}, {"A", "S"}, False, 0),
+        ("gwf clean A [all outputs are empty files]", ("A",), False, False, False, {"/p/a1"}, {"A"}, False, 0),
     ]
     diffs, n = [], 0
-    for label, targets, all_, force, decline, want_rm, want_inv, want_prompt in rows:
-        out, err = eval_clean_command(ctx, targets, all_, force, decline)
+    for row in rows:
+        label, targets, all_, force, decline, want_rm, want_inv, want_prompt = row[:8]
+        out, err = eval_clean_command(ctx, targets, all_, force, decline, size=(row[8] if len(row) > 8 else 10))
         if err:
             return n, diffs, err
         n += 1
@@ -1839,6 +1873,7 @@ def touch_command_witness(ctx):
     rows = [("gwf touch", (), {"A", "B", "S", "C", "All", "Other"}, TOUCH_PROJECT), ("gwf touch All", ("All",), {"A", "B", "S", "C", "All"}, TOUCH_PROJECT),
             ("gwf touch B", ("B",), {"A", "B"}, TOUCH_PROJECT), ("gwf touch A", ("A",), {"A"}, TOUCH_PROJECT),
             ("gwf touch 'C*' Other", ("C*", "Other"), {"A", "S", "C", "Other"}, TOUCH_PROJECT),
+            ("gwf touch 'nomatch*' (a pattern that matches no target)", ("nomatch*",), set(), TOUCH_PROJECT),
             ("gwf touch [project with shortcut edges]", (), set(TOUCH_PROJECT2), TOUCH_PROJECT2), ("gwf touch Stats [shortcut edges]", ("Stats",), {"Genome", "Index", "Map", "Stats"}, TOUCH_PROJECT2),
             ("gwf touch Top Map [shortcut edges]", ("Top", "Map"), {"Zed", "Mid", "Top", "Genome", "Index", "Map"}, TOUCH_PROJECT2)]
     diffs, n = [], 0
@@ -2057,6 +2092,7 @@ def report_witness(r, construct, where, result, ok_text, select=None):
     if diffs:
         for d in diffs[:3]:
             r.violation(construct, d, where)
+            r.instances[-1]["from_witness"] = True      # a concrete differing row: never overridden by another evaluation that happens to agree (Ctx.reconcile)
     elif unsup is not None:
         r.info(construct, f"not evaluated ({unsup}); the structural rules decide")
     else:
@@ -2833,7 +2869,7 @@ def eval_workflow_map(ctx, name=None, inputs=("a", ("b", "c"), {"x": "d"})):
     interp.max_depth = 10
     wf = Obj("workflow", name="wf", working_dir="/wfdir", defaults={}, targets={}, **{"__class__": wcls})
     try:
-        res = interp.call(idx.method(wcls, "map"), (copy_file, list(inputs)), {"name": name, "extra": {"flag": 1}}, self_obj=wf)
+        res = interp.call(idx.method(wcls, "map"), (copy_file, list(inputs) if isinstance(inputs, (list, tuple)) else inputs), {"name": name, "extra": {"flag": 1}}, self_obj=wf)
     except Raised as exc:
         return f"raise {exc.kind}: {exc.detail[:60]}", calls
     except Unsupported as exc:
@@ -3053,4 +3089,68 @@ def info_command_witness(ctx):
             gd, gt = sorted(rec.get("dependencies", [])), sorted(rec.get("dependents", []))
             if gd != deps[t] or gt != dependents[t]:
                 diffs.append(f"`{label}`: target {t} is reported with dependencies {gd} and dependents {gt}; the graph has {deps[t]} and {dependents[t]}")
+    return n, diffs, None
+
+
+# --------------------------------------------------------------------------- workflow helpers given one-shot iterables
+def one_shot_witness(ctx):
+    """The workflow-file API accepts any iterable; a generator / zip / map object can be gone through only once.  Each helper is evaluated with a list and with a
+    one-shot iterator over the same items: the results must be the same (nothing may peek at the items in a first pass and find them gone in the second)."""
+    idx = ctx.index
+    diffs, n = [], 0
+    # (1) collect(records, fields)
+    col = idx.maybe_func("gwf.workflow:collect") if hasattr(idx, "maybe_func") else None
+    if col is not None:
+        recs = [{"bam": "a.bam", "bai": "a.bai"}, {"bam": "b.bam", "bai": "b.bai"}]
+        try:
+            interp = PureInterp(ctx)
+            want = interp.call(col, ([dict(r) for r in recs], ["bam", "bai"]))
+            got = interp.call(col, (iter([dict(r) for r in recs]), ["bam", "bai"]))
+            n += 1
+            if got != want:
+                diffs.append(f"collect(<generator of records>, ['bam', 'bai']) gives {got}, for a list of the same records {want}: the records are gone through once per field, so every "
+                             "field after the first collects nothing - the target built from it silently loses inputs, and a missing or cyclic file among them is never validated")
+        except Raised as exc:
+            diffs.append(f"collect() over a generator of records raises {exc.kind}")
+        except Unsupported as exc:
+            return n, diffs, f"collect: {exc}"
+    # (2) Workflow.map(template_func, <one-shot inputs>)
+    for label, mk in (("a generator of items", lambda: iter(["a", "b", "c"])), ("a list", lambda: ["a", "b", "c"])):
+        got = eval_workflow_map(ctx, None, inputs=mk())
+        if isinstance(got[0], str) and got[0].startswith("<unsupported"):
+            return n, diffs, got[0]
+        n += 1
+        if isinstance(got[0], str):
+            diffs.append(f"Workflow.map over {label} ends with {got[0]}")
+        elif len(got[0]) != 3:
+            diffs.append(f"Workflow.map over {label} of three items creates {len(got[0])} target(s) {got[0]}: the items are consumed by a first pass over `inputs`, "
+                         "so map() silently returns fewer targets than items (one target per item is required)")
+    # (3) Workflow.target(..., protect=<one-shot iterable>)
+    wcls = idx.cls("gwf.workflow:Workflow")
+    made = []
+
+    def construct(cls, args, kwargs):
+        if cls.name == "Target":
+            t = target_obj(ctx, **dict(kwargs))
+            made.append(t)
+            return t
+        return NotImplemented
+    interp = PureInterp(ctx, hooks={"construct": construct})
+    interp.max_depth = 10
+    wf = Obj("workflow", name="wf", working_dir="/wfdir", defaults={}, targets={}, **{"__class__": wcls})
+    try:
+        t = interp.call(idx.method(wcls, "target"), ("P", [], ["x.bam", "y.txt"]), {"protect": (p_ for p_ in ["x.bam"])}, self_obj=wf)
+        n += 1
+        pv = t.__dict__["_attrs"].get("protect") if isinstance(t, Obj) else None
+        try:
+            pset = set(pv) if pv is not None else None
+        except TypeError:
+            pset = pv
+        if pset != {"x.bam"}:
+            diffs.append(f"Workflow.target(outputs=['x.bam', 'y.txt'], protect=<generator yielding 'x.bam'>) gives a target protecting {pset}: the generator was consumed before the "
+                         "target was built, so `gwf clean` deletes the protected file")
+    except Raised as exc:
+        diffs.append(f"Workflow.target with protect given as a generator raises {exc.kind}")
+    except Unsupported as exc:
+        return n, diffs, f"Workflow.target: {exc}"
     return n, diffs, None
